@@ -12,6 +12,7 @@ import Golib.Proof.C10History
 import Golib.Proof.C10Copy
 import Golib.Proof.C10C01
 import Golib.Proof.C10Trans
+import Golib.Proof.C10TransRing
 import Golib.Proof.C10SyncArith
 import Golib.Gen.FactsC10
 
@@ -574,6 +575,119 @@ theorem c10_trans_roundup_next_pow2 (x : BitVec 32) (L : Nat)
 example : Golib.Gen.Trans.C10.roundupPowOfTwo 1000#32 = .ok 1024#32 ∧
     Golib.Gen.Trans.C10.roundupPowOfTwo 2147483649#32 = .ok 0#32 := by
   constructor <;> decide +kernel
+
+
+/-! ### Regenerated tie (wave 8): the methods of `ringz/ring.go: Ring[T]` translated by `go2lean`
+
+`Golib.Gen.Trans.C10.Ring_*` (structure `Ring T`, pointer receiver = state passing: a method
+returns the updated receiver next to its results) are regenerated from the tree under
+verification on every run; the theorems below are re-checked against what the code says now.
+They are stated at `T := Int` (the element type of the hand-written model; zero value
+`default = 0`) through the abstraction `toM : Gen.Ring Int → Ring` / `ofM` (the four fields,
+copied) and `ofOpt` (the model's `none` = a Go panic), and they are UNCONDITIONAL: they also
+hold on states that violate the ring invariant (zero value, cursors out of range), where
+translated code and model panic at the same expression.  Together with `c10_ring_push`,
+`c10_ring_pop`, … (about `Ring.push`, `Ring.pop`, …) they make those theorems statements about
+the regenerated code. -/
+
+/-- TIE: `IsEmpty` is the model's `isEmpty`; it cannot panic. -/
+theorem c10_trans_Ring_IsEmpty (r : GRing) :
+    Golib.Gen.Trans.C10.Ring_IsEmpty r = .ok (toM r).isEmpty :=
+  trans_Ring_IsEmpty r
+
+/-- TIE: `IsFull` is the model's `isFull?`: `(tail+1) % cap == head`, a panic exactly when
+`cap = 0` (integer divide by zero: the never-initialised zero value). -/
+theorem c10_trans_Ring_IsFull (r : GRing) :
+    Golib.Gen.Trans.C10.Ring_IsFull r = ofOpt (toM r).isFull? :=
+  trans_Ring_IsFull r
+
+/-- TIE: `Len` is the model's `len` (three-way case on empty / unwrapped / wrapped); no panic. -/
+theorem c10_trans_Ring_Len (r : GRing) :
+    Golib.Gen.Trans.C10.Ring_Len r = .ok (toM r).len :=
+  trans_Ring_Len r
+
+/-- TIE: `Cap` returns the field `cap`. -/
+theorem c10_trans_Ring_Cap (r : GRing) :
+    Golib.Gen.Trans.C10.Ring_Cap r = .ok (toM r).cap :=
+  trans_Ring_Cap r
+
+/-- TIE: `Push` is the model's `push` — same result, same updated receiver, and a panic exactly
+where the model panics (`cap = 0`, or the new tail outside the backing array). -/
+theorem c10_trans_Ring_Push (r : GRing) (v : Int) :
+    Golib.Gen.Trans.C10.Ring_Push r v = ofOpt (((toM r).push v).map fun p => (p.2, ofM p.1)) :=
+  trans_Ring_Push r v
+
+/-- TIE: `Pop` is the model's `pop` — same value, same `ok`, same updated receiver (the vacated
+cell zeroed, cursors reset to `-1` when the last element leaves), same panics. -/
+theorem c10_trans_Ring_Pop (r : GRing) :
+    Golib.Gen.Trans.C10.Ring_Pop r
+      = ofOpt ((toM r).pop.map fun p => ((p.2.1, p.2.2), ofM p.1)) :=
+  trans_Ring_Pop r
+
+/-- TIE: `Peek` is the model's `peek`. -/
+theorem c10_trans_Ring_Peek (r : GRing) :
+    Golib.Gen.Trans.C10.Ring_Peek r = ofOpt (toM r).peek :=
+  trans_Ring_Peek r
+
+/-- TIE: `Init(cap)` is the model's `init?` whatever the receiver held before: panic iff
+`cap ≤ 0`, otherwise `cap` zero cells, both cursors `-1`. -/
+theorem c10_trans_Ring_Init (r : GRing) (cap : Int) :
+    Golib.Gen.Trans.C10.Ring_Init r cap = ofOpt ((Ring.init? cap).map ofM) :=
+  trans_Ring_Init r cap
+
+/-- TIE: `Recap(cap)` is the model's `recap` — refusal (`false`, receiver untouched) for
+`cap ≤ 0`, `cap = Cap()` and `cap < Len()`; otherwise a fresh array of `cap` zero cells that
+receives the unwrapped region with ONE `copy` or the wrapped region with TWO (`values[head:]`,
+then `values[:tail+1]` written through `newValues[n:]`), `head = 0`, `tail = Len()-1`; and a panic
+exactly where a slice expression of the model is out of range (only off-invariant states). -/
+theorem c10_trans_Ring_Recap (r : GRing) (cap : Int) :
+    Golib.Gen.Trans.C10.Ring_Recap r cap
+      = ofOpt (((toM r).recap cap).map fun p => (p.2, ofM p.1)) :=
+  trans_Ring_Recap r cap
+
+/-- TIE: `PushWithExpand` is the model's `pushWithExpand` (`IsFull`, then `Recap(2·cap)` when
+full, then `Push`; results of `Recap`/`Push` discarded, receiver threaded). -/
+theorem c10_trans_Ring_PushWithExpand (r : GRing) (v : Int) :
+    Golib.Gen.Trans.C10.Ring_PushWithExpand r v = ofOpt (((toM r).pushWithExpand v).map ofM) :=
+  trans_Ring_PushWithExpand r v
+
+/-- TIE: `New(cap)` (zero value, then `Init`) is the model's `init?`. -/
+theorem c10_trans_New (cap : Int) :
+    Golib.Gen.Trans.C10.New (T := Int) cap = ofOpt ((Ring.init? cap).map ofM) :=
+  trans_New cap
+
+/-- The property clause directly on the generated definitions: on a ring that satisfies the
+invariant, the TRANSLATED `Push` does not panic, succeeds iff fewer than `cap` elements are
+held, and appends at the tail of the abstract content (`c10_ring_push` carried over the tie). -/
+theorem c10_trans_Ring_Push_fifo (r : GRing) (v : Int) (hi : (toM r).Inv) :
+    ∃ r' ok, Golib.Gen.Trans.C10.Ring_Push r v = .ok (ok, r') ∧ (toM r').Inv ∧
+      (toM r').cap = (toM r).cap ∧
+      (ok = true ↔ ((toM r).content.length : Int) < (toM r).cap) ∧
+      (toM r').content = (if ok then (toM r).content ++ [v] else (toM r).content) := by
+  obtain ⟨m', ok, hp, hinv, hcap, hok, hc⟩ := c10_ring_push (toM r) v hi
+  refine ⟨ofM m', ok, ?_, by simpa using hinv, by simpa using hcap, hok, by simpa using hc⟩
+  rw [c10_trans_Ring_Push, hp]; rfl
+
+/-- Non-vacuity: the translated code run on a concrete wrapped ring (cap 3, head 2, tail 0):
+`Push 9` fills cell 1, a second push reports full, `Pop` returns the oldest (`7`) and zeroes its
+cell; on the zero value `IsFull` panics and `Init 0` panics; `Recap 5` unwraps the full ring
+(two copies), `Recap 2` refuses, `PushWithExpand` on the full ring doubles it first. -/
+example :
+    Golib.Gen.Trans.C10.Ring_Push (T := Int) ⟨[5, 0, 7], 2, 0, 3⟩ 9 = .ok (true, ⟨[5, 9, 7], 2, 1, 3⟩) ∧
+    Golib.Gen.Trans.C10.Ring_Push (T := Int) ⟨[5, 9, 7], 2, 1, 3⟩ 4 = .ok (false, ⟨[5, 9, 7], 2, 1, 3⟩) ∧
+    Golib.Gen.Trans.C10.Ring_Pop (T := Int) ⟨[5, 9, 7], 2, 1, 3⟩ = .ok ((7, true), ⟨[5, 9, 0], 0, 1, 3⟩) ∧
+    Golib.Gen.Trans.C10.Ring_Len (T := Int) ⟨[5, 9, 7], 2, 1, 3⟩ = .ok 3 ∧
+    Golib.Gen.Trans.C10.Ring_IsFull (T := Int) ⟨[], 0, 0, 0⟩ = .panic ∧
+    Golib.Gen.Trans.C10.Ring_Init (T := Int) ⟨[], 0, 0, 0⟩ 0 = .panic ∧
+    Golib.Gen.Trans.C10.Ring_Recap (T := Int) ⟨[5, 9, 7], 2, 1, 3⟩ 5 = .ok (true, ⟨[7, 5, 9, 0, 0], 0, 2, 5⟩) ∧
+    Golib.Gen.Trans.C10.Ring_Recap (T := Int) ⟨[5, 9, 7], 2, 1, 3⟩ 2 = .ok (false, ⟨[5, 9, 7], 2, 1, 3⟩) ∧
+    Golib.Gen.Trans.C10.Ring_PushWithExpand (T := Int) ⟨[5, 9, 7], 2, 1, 3⟩ 4
+      = .ok ⟨[7, 5, 9, 4, 0, 0], 0, 3, 6⟩ ∧
+    Golib.Gen.Trans.C10.New (T := Int) 2 = .ok ⟨[0, 0], -1, -1, 2⟩ ∧
+    (toM ⟨[5, 0, 7], 2, 0, 3⟩).Inv := by
+  refine ⟨by decide, by decide, by decide, by decide, by decide, by decide, by decide, by decide,
+    by decide, by decide, ?_⟩
+  exact ⟨by decide, by decide, Or.inr ⟨by decide, by decide, by decide, by decide⟩⟩
 
 
 end Golib.C10
